@@ -13,6 +13,10 @@ import time
 import traceback
 
 
+class _Done(Exception):
+    pass
+
+
 def main() -> int:
     ap = argparse.ArgumentParser()
     ap.add_argument('--prop', required=True)
@@ -56,11 +60,29 @@ def main() -> int:
     err = None
     try:
         installed = monitors.install()
+        if args.part == 'pytest':
+            # the repository's own tests as an additional workload (outcomes ignored)
+            import pytest
+
+            from fvm.props import PROPS
+
+            cfg = PROPS[args.prop]['pytest']
+            os.environ['FVM_GROUPS'] = ','.join(cfg['groups'])
+            os.environ['FVM_PROP'] = args.prop
+            repo = os.environ.get('FVM_REPO', '/repo')
+            os.chdir(repo)
+            files = cfg['files'][args.shard::args.nshards]
+            if files:
+                pytest.main(['-q', '-p', 'no:cacheprovider', '-p', 'fvm.pytest_plugin', '--timeout=600', '-x' if False else '-q',
+                             '--no-header', '-W', 'ignore'] + [os.path.join(repo, f) for f in files])
+            raise _Done()
         mod = importlib.import_module(f'fvm.workloads.{args.prop.lower()}')
         ctx = Ctx(prop=args.prop, tier=args.tier, seed=args.seed, x64=args.x64, shard=args.shard,
                   nshards=args.nshards, deadline=t0 + args.budget, only_index=args.only_index,
                   part=args.part)
         mod.run(ctx)
+    except _Done:
+        pass
     except BaseException as exc:  # noqa: BLE001
         status = 'crashed'
         err = ''.join(traceback.format_exception(exc))[-4000:]
